@@ -581,6 +581,48 @@ func runC11(c *core.Ctx) core.Meta {
 		}
 	}
 
+	// ---------------- R11.8 whoever removes the last outstanding request completes the command ----------------
+	st8 := c.Rule("R11.8", "every response handler of the copy middleware that removes a request from a command's outstanding list (copy pieces and the cache flushes attached to the command alike) goes on to retire the command when the list became empty: responses of different GPUs return in any order, and a handler that only removes leaves a command with nothing outstanding at the head of its queue forever", 3)
+	for _, fn := range pd.Funcs {
+		name := core.FuncName(fn)
+		if !strings.HasPrefix(name, "defaultMemoryCopyMiddleware.") {
+			continue
+		}
+		g := core.BuildGraph(fn, 2, func(cal *ssa.Function) bool { return cal.Pkg == fn.Pkg && strings.HasPrefix(core.FuncName(cal), "defaultMemoryCopyMiddleware.") })
+		for _, n := range g.Nodes {
+			if n.Frame.Parent != nil {
+				continue
+			}
+			removes := false
+			if cc := core.CallOf(n.Instr); cc != nil && cc.IsInvoke() && cc.Method.Name() == "RemoveReq" {
+				removes = true
+			}
+			if st, ok := storeToField(n.Instr, "MemCopyH2DCommand.Reqs"); ok && strings.Contains(name, "Return") && !strings.Contains(prov.Of(st.Val), "NewMemCopy") {
+				removes = true
+			}
+			if cal := core.CalleeFunc(n.Instr); cal != nil && cal.Name() == "RemoveReq" && !removes {
+				removes = true
+			}
+			if !removes {
+				continue
+			}
+			st8.Instances++
+			c.MarkAnalysed(fn)
+			after, _ := g.Reach(core.After(n, nil), core.WalkOpts{ForwardOnly: true})
+			okD := false
+			for m := range after {
+				if isDequeue(m.Instr) {
+					okD = true
+				}
+			}
+			st8.Ob(okD)
+			st8.Sample("%s removes a request from its command; completion (Dequeue) reachable afterwards: %v", name, okD)
+			if !okD {
+				c.ReportAt("R11.8", fn, n.Instr.Pos(), "remove-without-completion", name+" removes a returned request from the command's outstanding list and never retires the command: when this response is the last one to arrive (a flush of another GPU returning after the copy pieces) the command stays at the head of its queue with nothing outstanding, and every later DrainCommandQueue blocks")
+			}
+		}
+	}
+
 	// ---------------- R11.7 a copy with nothing to move still completes ----------------
 	st7 := c.Rule("R11.7", "a copy command is put into the running state only on a path on which its size was found non-zero: the splitting loop creates no request for an empty copy, so nothing would ever complete it and the queue (and every later DrainCommandQueue) would block forever", 2)
 	for _, fname := range []string{"defaultMemoryCopyMiddleware.processMemCopyH2DCommand", "defaultMemoryCopyMiddleware.processMemCopyD2HCommand"} {
